@@ -145,7 +145,7 @@ def eval_bool(model, c):
 
 
 class Interp:
-    def __init__(self, prog, ctx=None, merge=False, unwind=64, feas=True, map_orders=None, merge_ints=None, backedge_check=True):
+    def __init__(self, prog, ctx=None, merge=False, unwind=64, feas=True, map_orders=None, merge_ints=None, backedge_check=True, map_order_filter=None):
         self.prog = prog
         self.ctx = ctx or Ctx()
         self.merge = merge          # merge states that meet at the same scheduling key
@@ -157,6 +157,7 @@ class Interp:
         self.inited = set()
         self.base_heap = {}
         self.map_orders = map_orders  # None: insertion order; 'rot': all rotations; 'perm': all permutations
+        self.map_order_filter = map_order_filter  # substring of the map type the exploration is restricted to
         self.global_reads = set()
         self.global_writes = set()
         self.track_globals = False
@@ -1815,7 +1816,7 @@ class Interp:
         else:
             ents = self.heapget(st, x.obj)
         n = len(ents)
-        if self.map_orders and n > 1:
+        if self.map_orders and n > 1 and (self.map_order_filter is None or self.map_order_filter in ins['xt']):
             import itertools as _it
             if self.map_orders == 'rot':
                 orders = [tuple(range(r, n)) + tuple(range(0, r)) for r in range(n)]
